@@ -183,13 +183,14 @@ impl Brc20ProgDatabase {
         match self.latest_block_number {
             Some((block_number, _)) => return Ok(block_number + 1),
             None => {
+                // An empty database builds block 0 next, not block 1
                 return Ok(self
                     .db_block_number_to_hash
                     .as_ref()
                     .expect(DB_MUTEX_ERROR)
                     .last_key()?
-                    .unwrap_or(0)
-                    + 1);
+                    .map(|last_block_number| last_block_number + 1)
+                    .unwrap_or(0));
             }
         }
     }
